@@ -58,6 +58,9 @@ func Worker17(cfg Config) *evid.Stats {
 	st.Probes["yield_sites_in_build"] = int64(verifsim.NSites)
 	sitesSeen := map[int]struct{}{}
 	one := func(c *Case, pol policy, polName string) *worldRun {
+		if !rn.gate(c) {
+			return nil
+		}
 		c.Policy = polName
 		rc := rn.rc
 		if rn.pristineDue(c) {
@@ -115,6 +118,9 @@ func Worker17(cfg Config) *evid.Stats {
 	}
 	// dry run: serial, counts each task's yields
 	dry := func(c *Case) []int64 {
+		if cfg.EmitOut != "" {
+			return make([]int64, len(c.World.Tasks))
+		}
 		order := make([]int, len(c.World.Tasks))
 		for i := range order {
 			order[i] = i
